@@ -62,6 +62,7 @@ const (
 	fMyanmarFlags     = "C05-myanmar-consonant-flags"
 	fMyanmarLocl      = "C05-myanmar-locl-ccmp-per-syllable"
 	fZawgyiMorx       = "C05-zawgyi-morx-dumber-shaper"
+	fAttachDepth      = "C05-attachment-chain-depth-limit"
 )
 
 // unconditional (skew / loader / unspecified) classes
@@ -276,6 +277,30 @@ func pairClass0Fallthrough(fe *fontEntry, g1, g2 uint32) bool {
 			}
 			d, ok := pp.Data.(tables.PairPosData2)
 			if !ok || d.Cov() == nil || d.ClassDef2 == nil {
+				continue
+			}
+			if _, cov := d.Cov().Index(tables.GlyphID(g1)); !cov {
+				continue
+			}
+			if cl, _ := d.ClassDef2.Class(tables.GlyphID(g2)); cl == 0 {
+				return true
+			}
+		}
+	}
+	return false
+}
+
+// pairClass0Consumed: some PairPos format 2 subtable with a second value record covers g1 and gives
+// g2 class 0.
+func pairClass0Consumed(fe *fontEntry, g1, g2 uint32) bool {
+	for _, l := range fe.face.GPOS.Lookups {
+		for _, st := range l.Subtables {
+			pp, ok := st.(tables.PairPos)
+			if !ok {
+				continue
+			}
+			d, ok := pp.Data.(tables.PairPosData2)
+			if !ok || d.Cov() == nil || d.ClassDef2 == nil || d.ValueFormat2 == 0 {
 				continue
 			}
 			if _, cov := d.Cov().Index(tables.GlyphID(g1)); !cov {
@@ -615,6 +640,14 @@ func triage(fe *fontEntry, c *Case, got portResult, want refResult) class {
 	// for g2, libharfbuzz 6.0.0 "applies" the zero record and stops, the port (like upstream since
 	// issues 3824/3888) falls through to the next subtable (FreeSerif "i.": -30 only in the
 	// port). Only the glyphs of such pairs may differ, and only in advances/offsets.
+	// finding: propagateAttachmentOffsets follows an attachment chain (cursive / mark) to its end;
+	// upstream stops at depth HB_MAX_NESTING_LEVEL (64) and leaves the offsets of the glyphs beyond
+	// un-accumulated (in-house c4e48b08...ttf, U+0645 x 69: y offsets differ from the 65th glyph of
+	// the chain on). Precondition: more than 64 glyphs, a GPOS with cursive or mark attachment
+	// lookups; only offsets may differ.
+	if len(port) > 64 && !sameOn(port, ref, fOffset) && hasAttachmentLookups(fe) && ev.Known(fAttachDepth) {
+		add(fAttachDepth, fOffset)
+	}
 	if sameOn(port, ref, fID|fCluster) && !sameOn(port, ref, fAdvance|fOffset) {
 		affected := make([]bool, len(port))
 		any := false
@@ -622,6 +655,19 @@ func triage(fe *fontEntry, c *Case, got portResult, want refResult) class {
 			for j := i + 1; j < len(port) && j <= i+3; j++ {
 				if pairClass0Fallthrough(fe, port[i].ID, port[j].ID) || pairClass0Fallthrough(fe, port[j].ID, port[i].ID) {
 					affected[i], affected[j], any = true, true, true
+				}
+				// third face of the same skew: with a second value record (ValueFormat2 != 0)
+				// libharfbuzz 6.0.0 consumes the second glyph of the class-0 pair it "applied", so
+				// that glyph is never the first glyph of the next pair (gpos2_2_font3.otf, glyphs
+				// 19 x 30 then 20: the pair (19, 20) is kerned by the port only, or by both,
+				// depending on the parity of the run); the port returns false and tries it
+				for _, pr := range [][2]int{{i, j}, {j, i}} {
+					if pairClass0Consumed(fe, port[pr[0]].ID, port[pr[1]].ID) {
+						any = true
+						for k := i; k <= j+3 && k < len(port); k++ {
+							affected[k] = true
+						}
+					}
 				}
 			}
 		}
@@ -649,15 +695,46 @@ func triage(fe *fontEntry, c *Case, got portResult, want refResult) class {
 	// all. Estedad-VF.ttf, direction LTR, U+0639 U+0628 U+0651: the shadda is attached
 	// (407,-500) by the reference only. Precondition: GPOS has MarkBasePos/MarkLigPos lookups;
 	// only the offsets of GDEF mark glyphs differ.
-	if f.markAttach && fe.face.GDEF.GlyphClassDef != nil && sameOn(port, ref, fID|fCluster|fAdvance) && (len(c.Features) > 0 || f.multipleSubst || ev.Known(fMarkBaseCache)) {
+	if f.markAttach && sameOn(port, ref, fID|fCluster|fAdvance) && (len(c.Features) > 0 || f.multipleSubst || ev.Known(fMarkBaseCache)) {
 		onlyMarks := true
 		spaceGlyph, _ := fe.face.NominalGlyph(' ')
+		// a glyph counts as a mark when GDEF says so, or when a mark attachment lookup lists it as
+		// the attaching glyph and the character it stands for is a mark (7a37dc4d...ttf, Thai, GDEF
+		// without a class for it: U+0E01 U+0E34 U+0E01 U+0E34 with mark=0 on [1,3): the port
+		// attaches the second U+0E34 to the first U+0E01)
+		text := c.runes()
+		isMark := func(g G) bool {
+			if fe.face.GDEF.GlyphClassDef != nil {
+				if cl, _ := fe.face.GDEF.GlyphClassDef.Class(tables.GlyphID(g.ID)); cl == 3 {
+					return true
+				}
+			}
+			// (the attaching glyph of a mark lookup is the one its mark coverage lists, whatever
+			// GDEF says about it)
+			for _, l := range fe.face.GPOS.Lookups {
+				for _, st := range l.Subtables {
+					var cov tables.Coverage
+					switch m := st.(type) {
+					case tables.MarkBasePos:
+						cov = m.Cov()
+					case tables.MarkLigPos:
+						cov = m.Cov()
+					}
+					if cov != nil {
+						if _, ok := cov.Index(tables.GlyphID(g.ID)); ok {
+							return g.Cluster >= 0 && g.Cluster < len(text) && unicode.IsMark(text[g.Cluster])
+						}
+					}
+				}
+			}
+			return false
+		}
 		for i := range port {
 			if port[i].XOff != ref[i].XOff || port[i].YOff != ref[i].YOff {
 				// (a hidden default ignorable between the mark and its base sits in the attachment
 				// chain and moves with it: the space / invisible glyph counts like the mark)
 				hidden := port[i].ID == uint32(spaceGlyph) || c.Invisible != 0 && port[i].ID == uint32(c.Invisible)
-				if cl, _ := fe.face.GDEF.GlyphClassDef.Class(tables.GlyphID(port[i].ID)); cl != 3 && !hidden {
+				if !isMark(port[i]) && !hidden {
 					onlyMarks = false
 				}
 			}
@@ -789,3 +866,17 @@ func triageExtents(fe *fontEntry, c *Case, gid uint32, pe harfbuzz.GlyphExtents,
 
 var _ = font.NewFace
 var _ = ucd.LookupCombiningClass
+
+// hasAttachmentLookups: the GPOS table has a cursive, mark-to-base, mark-to-ligature or
+// mark-to-mark subtable (the lookups that build attachment chains).
+func hasAttachmentLookups(fe *fontEntry) bool {
+	for _, l := range fe.face.GPOS.Lookups {
+		for _, st := range l.Subtables {
+			switch st.(type) {
+			case tables.CursivePos, tables.MarkBasePos, tables.MarkLigPos, tables.MarkMarkPos:
+				return true
+			}
+		}
+	}
+	return false
+}
